@@ -47,12 +47,20 @@ type Net struct {
 	FaultBudget map[string]int
 	// DialFail: number of upcoming Dial calls that fail, per address
 	DialFail map[string]int
+	// DialDelay: virtual time a Dial to the address takes before it connects
+	DialDelay map[string]time.Duration
+	// SendWindow (stream links; 0: unbounded): the bytes a writer may have
+	// outstanding - written but not yet taken by the reading end - before Write
+	// blocks (socket buffers plus receive window). A write that does not fit is
+	// accepted in parts; a write deadline that expires while waiting returns the
+	// count accepted so far and a timeout error, like a TCP socket
+	SendWindow int
 	// OnLink is called for every new link (to set weights, scripted faults)
 	OnLink func(l *Link)
 }
 
 func New(w *simsync.World) *Net {
-	n := &Net{W: w, listeners: map[string]*Listener{}, Fired: map[string]int{}, FaultBudget: map[string]int{}, DialFail: map[string]int{}}
+	n := &Net{W: w, listeners: map[string]*Listener{}, Fired: map[string]int{}, FaultBudget: map[string]int{}, DialFail: map[string]int{}, DialDelay: map[string]time.Duration{}}
 	w.AddSource(n.options)
 	return n
 }
@@ -87,8 +95,10 @@ func (l *Link) KeepAlivePeriod() time.Duration {
 
 type ScriptedFault struct {
 	Dir        int
-	AfterWrite int    // fire right after this many writes on Dir ...
-	AtByte     int64  // ... or (if AfterWrite==0) as soon as this many bytes were delivered on Dir
+	AfterWrite int   // fire right after this many writes on Dir ...
+	AtByte     int64 // ... or (if AfterWrite==0) as soon as this many bytes were delivered on Dir
+	// AtConsumed (if > 0, alone): as soon as the reader of Dir has taken this many bytes
+	AtConsumed int64
 	Kind       string // "reset", "eof0", "eof1" (FIN on direction), "close0", "close1"
 	done       bool
 }
@@ -110,6 +120,7 @@ type Pipe struct {
 	fin       bool     // writer side closed or FIN injected
 	rst       bool
 	rq        simsync.WaitQ
+	wq        simsync.WaitQ // writers waiting for room (Net.SendWindow)
 	Weight    float64
 	Partial   bool
 	Manual    bool // delivery only through ManualDeliver (scripted segmentation)
@@ -129,6 +140,8 @@ type Conn struct {
 	closed   bool
 	rdl, wdl time.Time
 	rdlTimer *time.Timer
+	wdlTimer *time.Timer
+	wbusy    bool
 	local    net.Addr
 	remote   net.Addr
 	Closes   int
@@ -325,7 +338,7 @@ func (n *Net) InFlight(p *Pipe) int {
 func (n *Net) checkByteScripts(p *Pipe) {
 	for i := range p.link.Script {
 		f := &p.link.Script[i]
-		if !f.done && f.AfterWrite == 0 && f.Dir == p.d && p.Delivered >= f.AtByte {
+		if !f.done && f.AfterWrite == 0 && f.AtConsumed == 0 && f.Dir == p.d && p.Delivered >= f.AtByte {
 			f.done = true
 			n.applyFault(p.link, f.Kind)
 		}
@@ -340,6 +353,15 @@ func (n *Net) applyFault(l *Link, kind string) {
 		n.finLocked(l.Dir[0])
 	case "eof1":
 		n.finLocked(l.Dir[1])
+	default:
+		// "stall:<dir>:<ms>": delivery on that direction is suspended for that long
+		var d, ms int
+		if k, _ := fmt.Sscanf(kind, "stall:%d:%d", &d, &ms); k == 2 {
+			dur := time.Duration(ms) * time.Millisecond
+			l.Dir[d&1].stalled = time.Now().Add(dur)
+			n.fired("stall")
+			time.AfterFunc(dur, n.W.Ping)
+		}
 	}
 }
 
@@ -354,6 +376,7 @@ func (n *Net) resetLocked(l *Link) {
 		p.delivered = nil
 		p.pkts = nil
 		p.rq.Wake()
+		p.wq.Wake()
 	}
 }
 
@@ -451,6 +474,16 @@ func (c *Conn) Read(b []byte) (int, error) {
 			if len(p.delivered) == 0 {
 				p.delivered = nil
 			}
+			if n.SendWindow > 0 {
+				p.wq.Wake()
+			}
+			for i := range c.link.Script {
+				f := &c.link.Script[i]
+				if !f.done && f.AtConsumed > 0 && f.Dir == p.d && c.consumed >= f.AtConsumed {
+					f.done = true
+					n.applyFault(c.link, f.Kind)
+				}
+			}
 			return k, nil
 		}
 		if p.fin && len(p.inflight) == 0 {
@@ -484,6 +517,9 @@ func (c *Conn) Write(b []byte) (int, error) {
 	if !c.wdl.IsZero() && !time.Now().Before(c.wdl) {
 		return 0, errDeadline
 	}
+	if n.SendWindow > 0 && !c.link.Packet {
+		return c.writeWindowed(b)
+	}
 	cp := append([]byte(nil), b...)
 	n.wseq++
 	p.inflight = append(p.inflight, seg{b: cp, seq: n.wseq})
@@ -507,6 +543,73 @@ func (c *Conn) Write(b []byte) (int, error) {
 	return len(b), nil
 }
 
+// writeWindowed is Write under Net.SendWindow (n.mu held).
+func (c *Conn) writeWindowed(b []byte) (int, error) {
+	n := c.link.net
+	p := c.out
+	peer := c.link.Ends[1-c.side]
+	// one Write at a time per connection (the runtime's fd write lock): the
+	// parts of a blocked write are never interleaved with another writer's
+	for c.wbusy {
+		p.wq.Wait(&n.mu)
+	}
+	c.wbusy = true
+	defer func() {
+		c.wbusy = false
+		p.wq.Wake()
+	}()
+	p.Writes++
+	total := 0
+	var err error
+	for len(b) > 0 {
+		if c.closed {
+			err = errClosed
+			break
+		}
+		if p.rst {
+			err = syscall.ECONNRESET
+			break
+		}
+		if p.fin || peer.closed {
+			err = syscall.EPIPE
+			break
+		}
+		room := n.SendWindow - int(p.Written-peer.consumed)
+		if room <= 0 {
+			if !c.wdl.IsZero() && !time.Now().Before(c.wdl) {
+				err = errDeadline
+				n.fired("write_timeout")
+				break
+			}
+			n.fired("write_blocked")
+			p.wq.Wait(&n.mu)
+			continue
+		}
+		k := min(room, len(b))
+		n.wseq++
+		p.inflight = append(p.inflight, seg{b: append([]byte(nil), b[:k]...), seq: n.wseq})
+		if n.TapOn {
+			n.Tap = append(n.Tap, TapEvent{Step: n.W.Steps, At: n.W.Elapsed(), Pipe: p.Key, Off: p.Written, N: k})
+			p.TapBuf = append(p.TapBuf, b[:k]...)
+		}
+		p.Written += int64(k)
+		total += k
+		b = b[k:]
+		n.W.Ping()
+	}
+	if n.TapOn && total > 0 {
+		p.Bounds = append(p.Bounds, len(p.TapBuf))
+	}
+	for i := range c.link.Script {
+		f := &c.link.Script[i]
+		if !f.done && f.AfterWrite > 0 && f.Dir == p.d && p.Writes >= f.AfterWrite {
+			f.done = true
+			n.applyFault(c.link, f.Kind)
+		}
+	}
+	return total, err
+}
+
 func (c *Conn) Close() error {
 	n := c.link.net
 	n.mu.Lock()
@@ -521,6 +624,8 @@ func (c *Conn) Close() error {
 	c.in.pkts = nil
 	c.in.rq.Wake()
 	c.out.rq.Wake()
+	c.in.wq.Wake()
+	c.out.wq.Wake()
 	n.W.Ping()
 	if c.rdlTimer != nil {
 		c.rdlTimer.Stop()
@@ -584,6 +689,20 @@ func (c *Conn) SetWriteDeadline(t time.Time) error {
 	n.mu.Lock()
 	defer n.mu.Unlock()
 	c.wdl = t
+	if n.SendWindow > 0 {
+		if c.wdlTimer != nil {
+			c.wdlTimer.Stop()
+			c.wdlTimer = nil
+		}
+		if d := time.Until(t); !t.IsZero() && d > 0 {
+			c.wdlTimer = time.AfterFunc(d, func() {
+				n.mu.Lock()
+				c.out.wq.Wake()
+				n.mu.Unlock()
+			})
+		}
+		c.out.wq.Wake()
+	}
 	return nil
 }
 
@@ -670,7 +789,7 @@ type Dialer struct {
 	Tag       string
 	// TagFunc, if set, names the link after who dialled (e.g. the calling task)
 	TagFunc func() string
-	Dials     int
+	Dials   int
 }
 
 var ErrRefused = errors.New("connect: connection refused")
@@ -694,6 +813,12 @@ func (d *Dialer) Dial(network, address string) (net.Conn, error) {
 			return nil, err
 		}
 		key = ta.String()
+	}
+	if dl := n.DialDelay[key]; dl > 0 {
+		n.mu.Unlock()
+		time.Sleep(dl)
+		simsync.Yield("simnet:dial")
+		n.mu.Lock()
 	}
 	if n.DialFail[key] > 0 {
 		n.DialFail[key]--
